@@ -127,7 +127,7 @@ def run(ctx):
         ctx.formula('AGREE', f'quick-look reducer forwards {p} to the fine channeliser', wf, b.get(p, T.NONE), sym(p),
                     node=call[-1].node, construct=f'get_pfb_waterfall({p}=...)')
     # byte de-interleave of the reducer (8 bit, 2 pol)
-    rb = [e for e in I.events if e.kind == 'store' and e.data.get('target') == 'name' and e.owner == wf.short
+    rb = [e for e in I.events[:I.events.index(call[-1])] if e.kind == 'store' and e.data.get('target') == 'name' and e.owner == wf.short
           and e.data['value'].single_atom() is not None and e.data['value'].single_atom().kind == 'call'
           and any(a.kind == 'call' and a.args[0] == 'frombuffer' for a in T.all_atoms(e.data['value']).values())]
     ctx.require(rb, 'get_waterfall_from_raw: the raw byte buffer (np.frombuffer(...)) was not found')
